@@ -682,7 +682,7 @@ def cq(q: str) -> str:
 
 
 
-_WORDS = re.compile(r"[ \n\r\t]*(?:[A-Za-z_][A-Za-z0-9_-]*(?![.\[A-Za-z0-9_\-\u0080-￿])[ \n\r\t]*)*\}")
+_WORDS = re.compile(r"[ \n\r\t]*(?:[A-Za-z_](?:[A-Za-z0-9_]|-(?![}%]\}))*(?![.\[A-Za-z0-9_\-\u0080-￿])[ \n\r\t]*)*\}")
 
 
 def in_fragment(raw: str) -> bool:
@@ -823,11 +823,14 @@ def oracle_invalid(run: Run, mal: list[str]) -> None:
                              {"site": name, "quote": q, "raw": raw, "got": got})
 
 
+SURROGATE_WINDOWS = ["\\u\ud800000", "\\u0\udc0000", "\\uD83D\\u\udfffE00", "\\u00e\ud83d", "a\ud800b", "\\uD83D\\uDE0\udc00"]
+
+
 def tie_unescape(run: Run, inputs: list[str]) -> None:
     from liquid2.exceptions import LiquidSyntaxError
     im = run.im
-    for raw in dict.fromkeys(inputs):
-        if not no_surr(raw):
+    for raw in dict.fromkeys(inputs + SURROGATE_WINDOWS):
+        if not no_surr(raw) and raw not in SURROGATE_WINDOWS:
             continue
         out = attempt(im.unescape, raw)
         run.add("unescape", f"une_ok {C.cstr(raw)} {c_res(out, C.cstr)}", f"unescape {C.cstr(raw)}",
@@ -884,7 +887,11 @@ def tie_scanners(run: Run, inputs: list[tuple[str, str]], tails: list[str]) -> N
             out = attempt(im.string_token, src)
             if out[0] == "ok":
                 tok = im.tokens(src)[0].expression[0]
-                stop = tok.stop if hasattr(tok, "template") else tok.index + len(tok.value) + 1
+                if hasattr(tok, "template"):
+                    # since 0015 of C17 the span of a template string token ends at its closing quote
+                    stop = tok.stop + 1 if src[tok.stop: tok.stop + 1] == q else tok.stop
+                else:
+                    stop = tok.index + len(tok.value) + 1
                 exp = f"(Ok ({c_tok(out[1])}, {C.cstr(src[stop:])}))"
             else:
                 exp = c_err(out[1])
@@ -947,7 +954,7 @@ def tie_site_values(run: Run, inputs: list[tuple[str, str]], every: int) -> None
 
 def gen_template_strings(run: Run, pool: list[tuple[str, str, str]], n: int) -> list[tuple[str, str]]:
     r = run.r
-    bodies = ["x", " x ", "x y", "", " ", "y\t", "\nx\n", "y"]
+    bodies = ["x", " x ", "x y", "", " ", "y\t", "\nx\n", "y", "x-", "a-b", "x- "]
     out: list[tuple[str, str]] = []
     for _ in range(n):
         q = r.choice((SQ, DQ))
